@@ -133,7 +133,7 @@ mod verif_native_beautifier {
             s.push_str(&format!("(seq (call \"p\" (\"s\" \"f\") [] {v}) "));
             n += 1;
         }
-        for d in [r#"(ap ("k" 1) %map)"#, r#"(ap 1 $stream)"#, r#"(canon "p" $stream #canon)"#, r#"(canon "p" $stream #other)"#, r#"(canon "p" %map #%cmap)"#] {
+        for d in [r#"(ap ("k" 1) %map)"#, r#"(ap 1 $stream)"#, r#"(canon "p" $stream #canon)"#, r#"(canon "p" $stream #other)"#, r#"(canon "p" $stream #can)"#, r#"(canon "p" %map #%cmap)"#] {
             s.push_str(&format!("(seq {d} "));
             n += 1;
         }
